@@ -63,6 +63,13 @@ CLAIMS["C14"] = ("regular-language analysis (regex-syntax HIR anchoring) of cons
     "(strict) and ambiguous-zone inputs exit non-zero. Does not decide chrono's parsing of each absolute form.",
     "DESIGN.md §3 C14")
 
+CLAIMS["C18"] = ("MIR dominance and dataflow on the spawn/join sites, guard live-range analysis in decompress_to_ntf and the ctrlc handler closure, loop-exit classification of the handler's sweep, who-may-create for temporary files",
+    "Static necessary-condition check of temporary-file cleanup: worker JoinHandles are kept and joined on every non-interrupted path; a temporary "
+    "file is created and listed inside the registry write guard and the handler never releases that guard after sweeping; every creation is "
+    "listed; the handler clears the channel registry, removes every listed file in a loop that only ends at exhaustion, and sets EXIT_EARLY "
+    "which the coordinator tests before each blocking receive; the handler is installed before the first spawn. Does not decide timing.",
+    "DESIGN.md §3 C18")
+
 NA_REASON = {}
 
 checks = []
